@@ -128,7 +128,9 @@ let handle (ws : string list) : string =
             @ (match au.au_ds with Some r -> show_rrset o r | None -> []) in
       let ad = List.map (fun g -> show_name g.g_owner ^ "/" ^ string_of_int (int_of_n g.g_type) ^ "/" ^ string_of_int (int_of_n g.g_ttl) ^ "/" ^ show_rd g.g_data) a.a_addl in
       let es = if errs = [] then "-" else String.concat "," (List.map (fun (i, e) -> string_of_int (int_of_n i) ^ ":" ^ err_word e) errs) in
-      Printf.sprintf "%d %d AN=%s AU=%s AD=%s E=%s" rc (if a.a_aa then 1 else 0) an_s (set_show au) (set_show ad) es
+      let seq l = if l = [] then "-" else String.concat ";" l in
+      let ans = if an_s = "ANY" then "ANY" else seq an in
+      Printf.sprintf "%d %d AN=%s AU=%s AD=%s ANS=%s AUS=%s E=%s" rc (if a.a_aa then 1 else 0) an_s (set_show au) (set_show ad) ans (seq au) es
   | ["walk"] ->
       let recs = List.concat_map (fun ((o, r), cut) ->
         List.map (fun d -> show_name o ^ "/" ^ string_of_int (int_of_n r.rs_type) ^ "/" ^ string_of_int (int_of_n r.rs_ttl) ^ "/" ^ show_rd d ^ "/" ^ (if cut then "1" else "0")) r.rs_data) (c08_walk z) in
